@@ -295,6 +295,11 @@ struct Shared {
 };
 static Shared* g_shared = nullptr;
 static int g_timeout_s = 20;
+// Set by the supervisor in a restarted child: the behaviour that crashed is resumed after the
+// phase (e.g. cut position) that was in progress, if the handler opted in with g_resumable.
+static int64_t g_resume_phase = -1;
+static bool g_resumable = false;
+static FILE* g_real_out = nullptr;  // handlers that flush per phase write here directly
 
 static void die_handler(int sig) { _exit(100 + sig); }
 
@@ -326,10 +331,12 @@ static inline int supervise(const std::vector<std::string>& lines, const char* o
             signal(SIGILL, die_handler);
             std::set_terminate([]() { _exit(100 + SIGABRT); });
             FILE* out = fopen(out_path, "a");
+            g_real_out = out;
             for (int64_t k = start; k < n; k++) {
                 g_shared->cur = k;
                 g_shared->phase = -1;
                 g_shared->phase2 = -1;
+                if (k != start) g_resume_phase = -1;
                 alarm(g_timeout_s);
                 std::string buf;
                 // the handler writes into a memory stream so a behaviour's lines appear
@@ -361,8 +368,15 @@ static inline int supervise(const std::vector<std::string>& lines, const char* o
                 (long long)g_shared->phase2, cur >= 0 && cur < n ? lines[cur].c_str() : "null");
         fclose(out);
         crashes++;
-        start = cur + 1;
         if (cur < 0) break;
+        if (g_resumable && g_shared->phase >= 0) {
+            start = cur;  // same behaviour, continue after the phase that died
+            g_resume_phase = g_shared->phase + 1;
+        } else {
+            start = cur + 1;
+            g_resume_phase = -1;
+        }
+        if (crashes > 200000) break;
     }
     return 0;
 }
